@@ -203,7 +203,13 @@ nodeLoop:
 			}
 			if i == keyLength && keyLength == labelLength {
 				// update existing node
-				return edge.target.doUpdate(bt, fullKey, vals, params, metadata), false
+				isNew := edge.target.data == nil
+				if isNew {
+					// interior node created by an earlier split, it now becomes
+					// the node for this key
+					edge.target.key = fullKey
+				}
+				return edge.target.doUpdate(bt, fullKey, vals, params, metadata), isNew
 			} else if i == labelLength && labelLength < keyLength {
 				// descend
 				n = edge.target
@@ -285,6 +291,9 @@ func (e *edge) split(bt *Tree, splitOn int, fullKey []byte, key []byte, vals []e
 	if splitOn != len(key) {
 		newLeaf = &node{key: fullKey}
 		newNode.edges = append(newNode.edges, &edge{key[splitOn:], newLeaf})
+	} else {
+		// the new key ends at the split point, so the split node itself holds it
+		newNode.key = fullKey
 	}
 	e.label = e.label[:splitOn]
 	e.target = newNode
